@@ -190,4 +190,29 @@ example : textFn "REPLACE" [(.text "abcdef" : Val Int), .num 2, .num 3, .text "X
 example : textFn "SUBSTITUTE" [(.text "aXbXc" : Val Int), .text "X", .text "y", .num 2] = some (.text "aXbyc") := by decide +kernel
 
 end Example
+/-! ### SUMPRODUCT -/
+
+/-- an error value in any array is the result of `SUMPRODUCT` (the first one in argument order) -/
+theorem sumproduct_error (args : List (Res F)) (e : Err) (h : firstErr (flatVals args) = some e) :
+    sumproductFn args = .err e := by
+  simp [sumproductFn, h]
+
+/-- arrays of different shapes give `#VALUE!` -/
+theorem sumproduct_shape (a b : Arr (Val F)) (rest : List (Res F)) (hne : firstErr (flatVals (.arr a :: .arr b :: rest)) = none)
+    (hs : (b.length == a.length && (b.map List.length) == (a.map List.length)) = false) :
+    sumproductFn (.arr a :: .arr b :: rest) = .err .value := by
+  simp only [sumproductFn, hne, List.map_cons, Res.toArr, List.all_cons, hs, Bool.false_and]
+  rfl
+
+/-- whatever is not a number counts as zero: text (also text that looks like a number — `fix:` commit),
+logicals, blanks -/
+theorem sumproduct_nonnumber_zero (s : String) (b : Bool) :
+    spTerm (.text s : Val F) = Num.zero ∧ spTerm (.bool b : Val F) = Num.zero ∧ spTerm (.blank : Val F) = Num.zero := ⟨rfl, rfl, rfl⟩
+
+/-- the term of one position is the product of the entries at that position: the order of the arrays does
+not matter (commutative, associative multiplication) -/
+theorem sumproduct_swap (hc : ∀ a b : F, Num.mul a b = Num.mul b a) (ha : ∀ a b c : F, Num.mul (Num.mul a b) c = Num.mul a (Num.mul b c))
+    (x y : F) (rest : List F) : fprod (x :: y :: rest) = fprod (y :: x :: rest) :=
+  product_perm hc ha _ _ (List.Perm.swap y x rest)
+
 end XL.C12
